@@ -3,6 +3,7 @@
 package zrpc
 
 import (
+	"github.com/zeromicro/go-zero/zrpc/internal"
 	"github.com/zeromicro/go-zero/zrpc/internal/clientinterceptors"
 	"github.com/zeromicro/go-zero/zrpc/internal/serverinterceptors"
 )
@@ -17,3 +18,9 @@ var (
 
 // VerifMethodTimeoutConf is serverinterceptors.MethodTimeoutConf.
 type VerifMethodTimeoutConf = serverinterceptors.MethodTimeoutConf
+
+// client wiring (which interceptors a client gets for its configuration)
+var VerifBuildClientUnaryInterceptors = internal.VerifBuildClientUnaryInterceptors
+
+// VerifClientMiddlewaresConf is internal.ClientMiddlewaresConf.
+type VerifClientMiddlewaresConf = internal.ClientMiddlewaresConf
